@@ -407,6 +407,11 @@ func (c *Ctx) reachingStore(al *ssa.Alloc, ld *ssa.UnOp, ldCtx *Ctx) (ssa.Value,
 	if cellEscapes(al) {
 		return nil, nil
 	}
+	// a struct or array cell some of whose fields / elements are assigned individually is not "the value stored into
+	// it": `ev := translate(); ev.Name = f(ev.Name); return ev` does not return the translator's event
+	if fieldStored(al) {
+		return nil, nil
+	}
 	stores := cellStores(al)
 	if len(stores) == 0 {
 		return nil, nil
